@@ -180,7 +180,7 @@ func confusions(orig *jnode) []struct {
 
 // HotPaths are path fragments of the members that parsers and validators look at most.
 var HotPaths = []string{"credentialSubject", "/type", "/proof", "constraints", "verificationMethod", "submission_requirements", "descriptor_map",
-	"credentialStatus", "/pal", "/prevs", "/jwk", "/crit", "assertionMethod", "capabilityInvocation", "/service", "/vp", "/vc", "/nonce", "/aud", "/exp", "/nbf", "/iat", "encodedList"}
+	"credentialStatus", "/pal", "/prevs", "/jwk", "/crit", "assertionMethod", "capabilityInvocation", "/service", "/vp", "/vc", "/nonce", "/aud", "/exp", "/nbf", "/iat", "encodedList", "issuer", "@context", "/jti", "/iss", "/sub", "/holder", "entries"}
 
 // MutateJSON applies one seeded mutation to a JSON document. It returns the mutated bytes
 // and a description, or (nil, "") when raw is not JSON.
@@ -193,6 +193,7 @@ func MutateJSON(raw []byte, choose Chooser) ([]byte, string) {
 	}
 	var sl []jslot
 	root.slots("", nil, 0, &sl)
+	sl0 := sl
 	// half of the time the mutation lands in a part that the node acts upon rather than anywhere
 	if choose("focus", 2) == 1 {
 		var hot []jslot
@@ -209,7 +210,8 @@ func MutateJSON(raw []byte, choose Chooser) ([]byte, string) {
 		}
 	}
 	s := sl[choose("node", len(sl))]
-	kinds := []string{"confuse", "confuse", "confuse", "delete", "null", "duplicate", "rename", "swap", "truncate", "empty-container", "drop-first-element", "wrap-root"}
+	kinds := []string{"confuse", "confuse", "confuse", "delete", "null", "duplicate", "rename", "swap", "truncate", "empty-container", "drop-first-element", "wrap-root",
+		"insert-member", "inner-jwt", "inner-jwt"}
 	kind := kinds[choose("mutation", len(kinds))]
 	desc := kind + " " + s.path
 	set := func(v *jnode) {
@@ -305,6 +307,47 @@ func MutateJSON(raw []byte, choose Chooser) ([]byte, string) {
 		}
 	case "wrap-root":
 		root = &jnode{kind: jArr, arr: []*jnode{root}}
+	case "insert-member":
+		// a member the instance does not have, with a value of a seeded type; into a JSON-LD context an object carrying it
+		names := []string{"@base", "@context", "id", "type", "controller", "proof", "nonce", "exp", "kid", "jwk", "pal", "crit", "holder", "issuer", "credentialStatus", "verifiableCredential"}
+		name := names[choose("member", len(names))]
+		c := confusions(lit(`"x"`))
+		pick := c[choose("value", len(c))]
+		desc += fmt.Sprintf(" %q = %s", name, pick.name)
+		target := s.node
+		if target.kind != jObj && s.parent != nil && s.parent.kind == jObj {
+			target = s.parent
+		}
+		switch target.kind {
+		case jObj:
+			target.obj = append(target.obj, jkv{name, pick.v})
+		case jArr:
+			target.arr = append(target.arr, &jnode{kind: jObj, obj: []jkv{{name, pick.v}}})
+		default:
+			set(&jnode{kind: jObj, obj: []jkv{{name, pick.v}}})
+		}
+	case "inner-jwt":
+		// a compact JWT carried as a string somewhere in the document (a presentation in a list, a credential in a
+		// presentation): mutate its header or claims, keep its signature
+		var jwts []jslot
+		for _, x := range sl0 {
+			if x.node.kind == jLit && strings.HasPrefix(x.node.lit, `"ey`) && strings.Count(x.node.lit, ".") == 2 {
+				jwts = append(jwts, x)
+			}
+		}
+		if len(jwts) == 0 {
+			set(lit("null"))
+			desc = "null " + s.path
+			break
+		}
+		j := jwts[choose("jwt", len(jwts))]
+		var tok string
+		_ = json.Unmarshal([]byte(j.node.lit), &tok)
+		if m, d := MutateJWT(tok, choose, nil); m != "" {
+			q, _ := json.Marshal(m)
+			j.node.lit = string(q)
+			desc = "inner JWT at " + j.path + ": " + d
+		}
 	}
 	var b bytes.Buffer
 	root.write(&b)
